@@ -23,7 +23,21 @@ func runC16(c *Ctx) {
 	c.notDecided("the full decision table of GetMatchingNode (which candidate wins for each combination of shared/conflicting hashes and purls)")
 	const R = "lookup-criterion"
 	c.rule(R, "a lookup returns/appends an element only on the positive side of `element.<criterion field> == <parameter>` for every criterion of the frozen table; GetNodesByIdentifier compares the Identifiers entry of the resolved type with the value; GetRootNodes tests membership of the element's Id in an index built from the receiver's RootElements; GetNodesByPurlType tests the Purl() prefix built from the parameter")
-	for fname, crits := range lookupCriteria {
+	for fname := range lookupCriteria {
+		lookupCriterionRule(c, fname)
+	}
+	c.floor(R, 4, "Id, Name, From, Type")
+	identifierLookup(c)
+	rootLookup(c)
+	purlTypeLookup(c)
+	runC16rest(c)
+}
+
+// lookupCriterionRule checks one entry of the lookup-criterion table.
+func lookupCriterionRule(c *Ctx, fname string) {
+	const R = "lookup-criterion"
+	crits := lookupCriteria[fname]
+	for range []int{0} {
 		d := c.decl(R, fname)
 		if d == nil {
 			continue
@@ -121,11 +135,9 @@ func runC16(c *Ctx) {
 				fmt.Sprintf("%s yields an element that is not on the positive side of `element.%s == %s`: the lookup returns nodes that do not satisfy its criterion", fname, crit.field, crit.param))
 		}
 	}
-	c.floor(R, 4, "Id, Name, From, Type")
-	identifierLookup(c)
-	rootLookup(c)
-	purlTypeLookup(c)
+}
 
+func runC16rest(c *Ctx) {
 	// D2 identifier-type table
 	const RT = "table-inverse"
 	c.rule(RT, "SoftwareIdentifierTypeFromString inverts SoftwareIdentifierType.ToSPDX2Type on the four identifier types and maps the documented lower-case aliases")
